@@ -4,7 +4,8 @@
     "T" rows); two more configuration fields:
       17 detect_minimal_iri ("1"/"0") | 18 examples_mode ("N" = None, "S<mode>").
     Output: [["ok"; text; dom]] ([dom] = [run_decor_domb], the computable domain
-    of the strip theorem of Props/C17.v) or [["err"; exception name]]. *)
+    of the strip theorem of Props/C17.v) or [["err"; exception name]].
+    Entry [pipe_decor_info]: [["1"]] / [["0"]] = [c_example_none_guard]. *)
 From Coq Require Import List Ascii String ZArith NArith Bool.
 From Shexer Require Import Lib.PyStr Lib.Dict Gen.Consts Spec.Rdf Model.Table Model.Tracker Model.Profiler
      Model.Tokens Model.Freq Model.FreqInst Model.Shexing Model.SerialShexc Model.Run Model.EntryPipe
@@ -27,6 +28,12 @@ Definition pipe_shexc_decor (t : table) : table :=
   | inr e => [[Str "err"; derr_str e]]
   end.
 
+(** which text of [ShexSerializer._serialize_example] the constants were generated from
+    ([Gen/Consts.v: c_example_none_guard]); the harness asks, so that finding C17-F4 excuses a
+    crash only on the text without the guard *)
+Definition pipe_decor_info (t : table) : table := [[bstr c_example_none_guard]].
+
 Definition entry_rundecor (name : str) (t : table) : option table :=
   if str_eqb name (Str "pipe_shexc_decor") then Some (pipe_shexc_decor t)
+  else if str_eqb name (Str "pipe_decor_info") then Some (pipe_decor_info t)
   else None.
